@@ -489,6 +489,13 @@ def register_connect2(reg):
             same_map(ctx, MAPS[2][0], "opt"), same_map(ctx, MAPS[3][0], "bool"), same_map(ctx, MAPS[4][0], "bool"),
             helper_wf(ctx))
 
+    def initial_pull_time(cc, argmap):
+        t = argmap["time"]
+        st_ = cc.start_time
+        info = cc.local("info")
+        own = cc.get(strip_none(info).e, "_time") if not isinstance(info, sv.SNone) else sv.NONE
+        return If(is_none(st_), sv.value_eq(t, own), sv.value_eq(t, st_))
+
     def inv_b(ctx):
         """loop over in_data: initial pulls"""
         seq = ctx.seq
@@ -519,6 +526,8 @@ def register_connect2(reg):
                 "FinamNoDataError": lambda ctx: z3.BoolVal(True),
                 "KeyError": lambda ctx: z3.BoolVal(True), "ValueError": lambda ctx: z3.BoolVal(True)},
         loops={1: dict(invariant=inv_a, locals={"any_done": Bool}), 2: dict(invariant=inv_b, locals={"any_done": Int})},
+        # C06: initial pulls ask for the composition start time; the consumer's own info time only stands in when no start is given
+        call_checks={"pull_data": initial_pull_time},
         max_paths=3000,
     ))
 
